@@ -1,6 +1,7 @@
 """C20 - violation messages are deterministic and bounded."""
 import exprprop
 import implexpr
+import directed
 
 DESCRIPTION = ("Lean: Props/C20.lean (the value lines are a function of the set of resolved arguments - any permutation of "
                "distinct-keyed keyword arguments gives the identical list; the lines are sorted by expression text; every line "
@@ -57,6 +58,7 @@ HIDDEN = [
     (["x"], "len([x]) > 100 and abs(x) > 0", {"x": 1}),
     (["x"], "implexpr_tick(x) > 100", {"x": 1}),
 ]
+NEIGHBOURS = [{"from": "C06", "limit": 400, "why": "messages are a function of the current values only"}]
 
 
 def _variants(rng, params, allow_positional=True):
@@ -71,8 +73,13 @@ def _variants(rng, params, allow_positional=True):
     return vs
 
 
+run_directed = directed.run
+
+
 def cases(tier, rng):
     thorough = tier == "thorough"
+    for c in directed.rewritten_file_cases():
+        yield "directed-rewritten-file", c
     for params, expr, env in BIG:
         for a_repr in (None, SMALL):
             for kind in ("require", "ensure", "invariant"):
@@ -125,8 +132,12 @@ def cases(tier, rng):
                                           "orders": [[0, 1, 2, 3, 4], [4, 3, 2, 1, 0], [1, 0, 3, 2, 4], [2, 4, 0, 1, 3]]}
     for params, expr, env in HIDDEN:
         for kind in ("require", "ensure"):
-            yield "unrepresentable-arguments", {"dom": "expr", "expr": expr.replace("implexpr_tick", "tick"), "env": env, "params": list(params),
-                                                "layout": "oneline", "kind": kind, "variants": _variants(rng, params)}
+            for named in (False, True):
+                c = {"dom": "expr", "expr": expr.replace("implexpr_tick", "tick"), "env": env, "params": list(params),
+                     "layout": "oneline", "kind": kind, "variants": _variants(rng, params)}
+                if named:
+                    c["named"] = True        # the condition is a named function: only the arguments are listed
+                yield "unrepresentable-arguments", c
     # _ARGS / _KWARGS: shown only when the condition names them
     for cparams, expr in ((["x", "y"], "x > 100"), (["_ARGS", "x"], "len(_ARGS) > 5 or x > 100"),
                           (["_KWARGS", "x"], "len(_KWARGS) > 5 or x > 100"), (["_ARGS", "_KWARGS"], "len(_ARGS) + len(_KWARGS) > 5")):
